@@ -43,16 +43,33 @@ def main():
         else:
             notes.append('showdown.rs no longer imports std::collections::HashSet by that line: running on the real container')
         hs = [h for h in harnesses('thorough' if a.only else a.tier) if not a.only or h.name in a.only.split(',')]
-        obs += run_family(src, mods, hs, jobs=6)
+        import threading
+        mres = {}
+
+        def mpart():
+            try:
+                import c03_m
+                msrc = snapshot('src-m')
+                mres['obs'] = c03_m.obligations(msrc, mir_dump(msrc, 'dev'), replay_build(msrc, ('debug',)), list(range(1, 7)) if a.tier == 'quick' else list(range(1, 10)))
+            except Exception as e:
+                mres['obs'] = [Obligation('engine-m:showdown', 'inconclusive', repr(e)[-500:])]
+        mt = threading.Thread(target=mpart)
+        if not a.only or 'engine-m' in a.only:
+            mt.start()
+        obs += run_family(src, mods, hs, jobs=6) if hs else []
+        if mt.is_alive() or 'obs' in mres:
+            mt.join()
+        obs += mres.get('obs', [])
     except Inconclusive as e:
         obs.append(Obligation('setup', 'inconclusive', str(e)[-1500:]))
     nmax = 4 if a.tier == 'thorough' else 3
+    mmax = 9 if a.tier == 'thorough' else 6
     states = sum(o.queries for o in obs)
     cov = dict(states=max(states, 1), transitions=max(states, 1), traces_validated_against_impl=sum(1 for o in obs if o.cex and o.cex.get('reproduced')),
                samples=[dict(harness=o.name, what=o.extra.get('description', ''), status=o.status, covers=o.extra.get('covers'), seconds=o.wall_s) for o in obs],
                functions_encoded=['Showdown::new', 'Showdown::winner_len/players/board/probability', 'ShowdownPlayer::hole_cards/board/cards/hand/is_winner',
                                   'CardPair::new, Index; derived PartialEq of Card', 'thorough: real MadeHand::from for n=2'],
-               bounds=f'player count n <= {nmax} with uninterpreted strengths (n=2 with the real evaluator in the thorough tier); a full table is 10: n > {nmax} is outside the claim',
+               bounds=f'Kani: player count n <= {nmax} with uninterpreted strengths (n=2 with the real evaluator in the thorough tier); Engine M (MIR of Showdown::new + winner_len, one uninterpreted evaluator function, every weaker/tie/stronger pattern): n <= {mmax}; a full table is 10: n > {mmax} is outside the claim',
                stubs=notes + ['MadeHand::from replaced by an uninterpreted function of the card set (arbitrary class 1..=7462, same set => same value) — strictly more behaviours than the real evaluator'],
                states_meaning='CBMC property checks discharged (each over all symbolic boards/hole cards/strengths)', exhaustive=False)
     finish(PID, a.tier, 'model_checking', obs, cov, notes + ['hole cards differ from the board and from each other (property domain)'], t0, seed)
